@@ -19,6 +19,8 @@ import (
 	"os"
 	"runtime"
 	"strings"
+	"syscall"
+	"time"
 
 	"storj.io/drpc"
 	"storj.io/drpc/drpcerr"
@@ -42,6 +44,7 @@ type acc struct {
 	viol   []runner.Result
 	sample interface{}
 	stats  map[string]int64
+	spun   bool // a call of this batch never returned: its goroutine is still burning CPU, end the batch
 }
 
 func (a *acc) fail(key, format string, args ...interface{}) {
@@ -78,6 +81,61 @@ func (a *acc) guard(key string, input func() string, f func()) (ok bool) {
 	}()
 	f()
 	return true
+}
+
+// guardBounded is guard for entry points that walk data structures the input controls (error
+// chains): besides panics it notices a call that never returns. The call runs on its own OS
+// thread and the verdict is taken on the CPU time that thread has consumed (a measure of the work
+// done, not of how loaded the machine is): calls that normally take microseconds and have burnt
+// spinLimit of CPU without returning are reported. The spinning goroutine cannot be stopped; it is
+// left behind until the child process of this batch ends.
+const spinLimit = 10 * time.Second
+
+func threadCPU(tid int) time.Duration {
+	b, err := os.ReadFile(fmt.Sprintf("/proc/self/task/%d/stat", tid))
+	if err != nil {
+		return 0
+	}
+	// fields after the command name, which is in parentheses and may contain spaces
+	rest := string(b[bytes.LastIndexByte(b, ')')+1:])
+	f := strings.Fields(rest)
+	if len(f) < 13 {
+		return 0
+	}
+	var ut, st int64
+	fmt.Sscan(f[11], &ut)
+	fmt.Sscan(f[12], &st)
+	return time.Duration(ut+st) * (time.Second / 100) // USER_HZ is 100 on Linux
+}
+
+func (a *acc) guardBounded(key string, input func() string, f func()) (ok bool) {
+	done := make(chan bool, 1)
+	tidc := make(chan int, 1)
+	go func() {
+		runtime.LockOSThread() // not unlocked on purpose if the call never returns; a thread that returns is reused
+		tidc <- syscall.Gettid()
+		r := a.guard(key, input, f)
+		runtime.UnlockOSThread()
+		done <- r
+	}()
+	tid := <-tidc
+	start := time.Now()
+	for {
+		select {
+		case r := <-done:
+			return r
+		case <-time.After(100 * time.Millisecond):
+		}
+		if cpu := threadCPU(tid); cpu > spinLimit {
+			a.spun = true
+			a.fail(key+"-does-not-return", "%s has consumed %v of CPU on input %s without returning (calls on ordinary inputs take microseconds): it does not return", key, cpu, input())
+			return false
+		}
+		if time.Since(start) > 10*time.Minute {
+			a.fail("harness-watchdog", "%s neither returned nor consumed CPU for 10 minutes on input %s", key, input())
+			return false
+		}
+	}
 }
 
 var lastInputFile = os.Getenv("VERIF_DIR") + "/.build/c13-last-input"
@@ -647,14 +705,20 @@ func gen(tier string, seed uint64) []runner.Scenario {
 	add("errors/hostile", func(a *acc) {
 		for name, e := range hostileErrors() {
 			name, e := name, e
-			a.guard("drpcerr.Code", func() string { return name }, func() { drpcerr.Code(e) })
-			a.guard("drpcwire.MarshalError", func() string { return name }, func() {
+			if a.spun {
+				break
+			}
+			a.guardBounded("drpcerr.Code", func() string { return name }, func() { drpcerr.Code(e) })
+			a.guardBounded("drpcwire.MarshalError", func() string { return name }, func() {
 				b := drpcwire.MarshalError(e)
 				drpcwire.UnmarshalError(b)
 			})
 			for _, ct := range contentTypes {
 				ct := ct
-				a.guard("ServeHTTP(handler error)", func() string { return fmt.Sprintf("error=%s ct=%q", name, ct) }, func() {
+				if a.spun {
+					break
+				}
+				a.guardBounded("ServeHTTP(handler error)", func() string { return fmt.Sprintf("error=%s ct=%q", name, ct) }, func() {
 					serve(scriptHandler{ret: e}, ct, bytes.NewReader(nil), nil)
 				})
 			}
@@ -709,6 +773,41 @@ func gen(tier string, seed uint64) []runner.Scenario {
 					}
 				}
 			}
+		}
+	})
+
+	// H2. message packets with a consumer: what the peer sends may be something the local decoder
+	// rejects; the dispatch of that packet and of everything after it must still return
+	add("stream/handlepacket-messages", func(a *acc) {
+		bodies := [][]byte{payload.Undecodable(0), payload.Undecodable(40), payload.Make(5, 0, 0, 0, 20), nil}
+		for mask := 0; mask < 1<<6; mask++ {
+			a.n++
+			var sink bytes.Buffer
+			st := drpcstream.New(context.Background(), 5, drpcwire.NewWriter(&sink, 0))
+			var seq []int
+			for k := 0; k < 3; k++ {
+				seq = append(seq, (mask>>(2*uint(k)))&3)
+			}
+			reader := rig.Go("reader", func() (interface{}, error) {
+				for k, b := range seq {
+					st.HandlePacket(drpcwire.Packet{Data: bodies[b], ID: drpcwire.ID{Stream: 5, Message: uint64(k + 1)}, Kind: drpcwire.KindMessage})
+				}
+				st.HandlePacket(drpcwire.Packet{ID: drpcwire.ID{Stream: 5, Message: 9}, Kind: drpcwire.KindCloseSend})
+				return nil, nil
+			})
+			consumer := rig.Go("consumer", func() (interface{}, error) {
+				for {
+					var m []byte
+					if err := st.MsgRecv(&m, payload.Enc{}); err == io.EOF {
+						return nil, nil
+					}
+				}
+			})
+			if !reader.Wait() || !consumer.Wait() {
+				a.fail("Stream.HandlePacket-does-not-return", "message packets %v (0,1 = rejected by the decoder) followed by a half-close: dispatch returned=%v, receiver reached end of stream=%v", seq, reader.Returned(), consumer.Returned())
+				break // the stream is wedged: nothing on it can be trusted to return, leave it
+			}
+			st.Close()
 		}
 	})
 
